@@ -1,1 +1,224 @@
-/-! Property theorems for C18 (none yet). -/
+import MirVerif.Lemmas.Footprint
+import MirVerif.Model.FootprintAllowed
+import MirVerif.Gen.C18_Inventory
+/-!
+# C18 — independent contexts can be used from different threads without interference
+
+Model: `MirVerif/Model/Footprint.lean`.  The tie to the code is the regenerated inventory
+`MirVerif.Gen.C18` (every non-const object with static storage duration of the library translation
+units with its write sites, from clang's AST) plus its dynamic validation by `harness/c18_threads.c`
+under ThreadSanitizer (checks/c18.py).
+
+The *ideal* per-run obligation is `no_shared_writes : MirVerif.Gen.C18.sharedWrites = []`.
+
+It is FALSE on the current tree (DESIGN §6 #15 and one more object found by this inventory):
+`addr_offset8/16/32` (mir-interp.c, assigned in `interp_init`), `patterns[i].max_insn_size`
+(mir-gen-x86_64.c, assigned in `patterns_init`), `curr_func`/`curr_temp` (mir2c/mir2c.c) and c2mir's
+`VOID_TYPE` (lazily laid out through `&VOID_TYPE` by `set_type_layout`).  Its negation is not stated
+as a theorem because it has to become false again as soon as the objects are repaired; instead
+`inventory_sites_allowed` pins the *exact* exception list (`Footprint.knownFindings`, each a known
+finding reported by the check on every run while it is present), and the property theorem is proved
+in the `_partial` form with the explicit extra hypothesis `AvoidsFindings`.
+-/
+namespace MirVerif.C18
+open MirVerif.Footprint
+
+/-! ## 1. Abstract theorems (all operations, all traces) -/
+
+/-- Two operations with disjoint footprints (no write/write, no read/write overlap) commute: same
+final memory in both orders and each returns what it returns when run first. -/
+theorem commute (a b : Op) (ha : a.Respects) (hb : b.Respects) (hd : Disjoint a b) (m : Mem) :
+    a.run (b.run m) = b.run (a.run m) ∧ a.res (b.run m) = a.res m ∧ b.res (a.run m) = b.res m := by
+  have hab : ∀ l, a.reads l = true → b.run m l = m l := by
+    intro l hl
+    cases hw : b.writes l with
+    | false => exact run_frame b m l hw
+    | true => have := ((hd l).2 hw).1; simp [hl] at this
+  have hba : ∀ l, b.reads l = true → a.run m l = m l := by
+    intro l hl
+    cases hw : a.writes l with
+    | false => exact run_frame a m l hw
+    | true => have := ((hd l).1 hw).1; simp [hl] at this
+  have ra := ha (b.run m) m hab
+  have rb := hb (a.run m) m hba
+  refine ⟨?_, ra.1, rb.1⟩
+  funext l
+  cases hwa : a.writes l with
+  | true =>
+    have hwb : b.writes l = false := ((hd l).1 hwa).2
+    rw [run_written a _ l hwa, run_frame b _ l hwb, run_written a _ l hwa]
+    exact ra.2 l hwa
+  | false =>
+    rw [run_frame a _ l hwa]
+    cases hwb : b.writes l with
+    | true => rw [run_written b _ l hwb, run_written b _ l hwb]; exact (rb.2 l hwb).symm
+    | false => rw [run_frame b _ l hwb, run_frame b _ l hwb, run_frame a _ l hwa]
+
+/-- non-vacuity: two operations of different contexts that both read a shared object -/
+def opA : Op := mkOp 1 [.ctx 0 0, .shared 3 0] [.ctx 0 1]
+def opB : Op := mkOp 2 [.ctx 1 0, .shared 3 0] [.ctx 1 1]
+
+example : opA.Respects ∧ opB.Respects ∧ Disjoint opA opB ∧ opA.run (fun _ => 1) (.ctx 0 1) ≠ 1 :=
+  ⟨mkOp_respects 1 _ _ none, mkOp_respects 2 _ _ none,
+   confined_disjoint (i := 0) (j := 1) (by decide) (mkOp_confined 0 1 _ _ none (by decide))
+     (mkOp_confined 1 2 _ _ none (by decide)),
+   by decide⟩
+
+/-- Swapping two adjacent operations of different threads anywhere in a trace changes neither the
+final memory nor what any thread observes (proved with `commute`): every interleaving is equivalent
+to every other interleaving of the same per-thread programs. -/
+theorem swap_adjacent (pre post : Trace) (i j : Nat) (a b : Op) (hij : i ≠ j)
+    (ha : a.Respects ∧ a.Confined i) (hb : b.Respects ∧ b.Confined j) (m : Mem) :
+    (exec (pre ++ (i, a) :: (j, b) :: post) m).1 = (exec (pre ++ (j, b) :: (i, a) :: post) m).1 ∧
+    ∀ k, resultsOf k (exec (pre ++ (i, a) :: (j, b) :: post) m).2
+       = resultsOf k (exec (pre ++ (j, b) :: (i, a) :: post) m).2 := by
+  have hc := commute a b ha.1 hb.1 (confined_disjoint hij ha.2 hb.2) (exec pre m).1
+  rw [exec_append, exec_append]
+  simp only [exec]
+  rw [hc.1, hc.2.1, hc.2.2]
+  refine ⟨rfl, fun k => ?_⟩
+  rw [resultsOf_append, resultsOf_append, resultsOf_swap k i j hij]
+
+/-- **Interleaving irrelevance.**  If every operation respects its footprint and every operation of
+thread `i` writes only locations of context `i` and reads only context `i` and shared locations (so
+no operation writes a shared location), then for EVERY interleaving `tr` of the threads' programs,
+every thread `i` and every initial memory: the final state projected on what `i` can see (its
+context and the shared objects) and the sequence of results `i` obtained are those of the run in
+which `i`'s operations (`own i tr`, its program) are executed alone. -/
+theorem interleaving_irrelevant (tr : Trace) (h : ∀ e ∈ tr, e.2.Respects ∧ e.2.Confined e.1)
+    (i : Nat) (m : Mem) :
+    AgreeOn i (exec tr m).1 (exec (own i tr) m).1 ∧
+    resultsOf i (exec tr m).2 = (exec (own i tr) m).2.map (·.2) := by
+  have := exec_sim i tr h m m (agreeOn_refl i m)
+  exact ⟨this.1, by rw [this.2, resultsOf_own]⟩
+
+/-- under the same hypotheses the shared objects keep their initial contents -/
+theorem shared_never_written (tr : Trace) (h : ∀ e ∈ tr, e.2.Confined e.1) (m : Mem) (o a : Nat) :
+    (exec tr m).1 (.shared o a) = m (.shared o a) :=
+  exec_shared_unchanged tr h m _ rfl
+
+/-- non-vacuity: a concrete two-thread, four-operation interleaving satisfying the hypotheses in
+which both threads really compute (results depend on what they read and wrote) -/
+def demoTrace : Trace :=
+  [(0, mkOp 1 [.ctx 0 0, .shared 3 0] [.ctx 0 1]), (1, mkOp 2 [.ctx 1 0, .shared 3 0] [.ctx 1 0, .ctx 1 1]),
+   (0, mkOp 3 [.ctx 0 1] [.ctx 0 0]), (1, mkOp 4 [.ctx 1 1, .shared 5 2] [.ctx 1 2])]
+
+example : (∀ e ∈ demoTrace, e.2.Respects ∧ e.2.Confined e.1) ∧
+    (exec demoTrace (fun _ => 1)).1 (.ctx 1 2) ≠ 1 ∧ own 1 demoTrace ≠ demoTrace := by
+  refine ⟨?_, by decide, by simp [demoTrace, own]⟩
+  intro e he
+  simp only [demoTrace, List.mem_cons, List.mem_nil_iff, or_false] at he
+  rcases he with rfl | rfl | rfl | rfl
+  · exact ⟨mkOp_respects 1 _ _ none, mkOp_confined 0 1 _ _ none (by decide)⟩
+  · exact ⟨mkOp_respects 2 _ _ none, mkOp_confined 1 2 _ _ none (by decide)⟩
+  · exact ⟨mkOp_respects 3 _ _ none, mkOp_confined 0 3 _ _ none (by decide)⟩
+  · exact ⟨mkOp_respects 4 _ _ none, mkOp_confined 1 4 _ _ none (by decide)⟩
+
+/-- The hypothesis cannot be dropped: one write to a shared location that another thread reads makes
+the outcome depend on the interleaving (thread 1 observes a different result when thread 0's
+operation is scheduled before it). -/
+theorem shared_write_interferes :
+    ∃ (tr : Trace) (m : Mem), (∀ e ∈ tr, e.2.Respects) ∧
+      resultsOf 1 (exec tr m).2 ≠ (exec (own 1 tr) m).2.map (·.2) := by
+  refine ⟨[(0, mkOp 1 [] [.shared 0 0] (some 7)), (1, mkOp 2 [.shared 0 0] [.ctx 1 0])], fun _ => 0,
+    ?_, by decide⟩
+  intro e he
+  simp only [List.mem_cons, List.mem_nil_iff, or_false] at he
+  rcases he with rfl | rfl
+  · exact mkOp_respects 1 _ _ (some 7)
+  · exact mkOp_respects 2 _ _ none
+
+/-! ## 2. The per-run obligation on the regenerated inventory -/
+
+/-- Every write site of every non-const static object found in the CURRENT sources is either on a
+listed known finding or is one of the reviewed address escapes.  Regenerated and re-checked on every
+run: a new written static (or a new write site on a reviewed object) makes this fail. -/
+theorem inventory_sites_allowed : MirVerif.Gen.C18.writeSites.all siteAllowed = true := by decide
+
+/-- key `(file, object)` of the shared object numbered `o` -/
+def objKey (o : Nat) : Option (String × String) :=
+  (MirVerif.Gen.C18.objects[o]?).map (fun e => (e.1, e.2.1))
+
+/-- the object has a write site that is not a reviewed, read-only address escape -/
+def keyMayWrite (k : String × String) : Bool :=
+  MirVerif.Gen.C18.writeSites.any (fun s => (s.1, s.2.1) == k && !siteReviewed s)
+
+def objMayWrite (o : Nat) : Bool := match objKey o with | some k => keyMayWrite k | none => false
+def objFinding (o : Nat) : Bool :=
+  match objKey o with | some k => knownFindings.contains k | none => false
+
+theorem mayWrite_is_finding (o : Nat) (h : objMayWrite o = true) : objFinding o = true := by
+  unfold objMayWrite at h
+  unfold objFinding
+  cases hk : objKey o with
+  | none => simp [hk] at h
+  | some k =>
+    simp only [hk] at h ⊢
+    unfold keyMayWrite at h
+    rw [List.any_eq_true] at h
+    obtain ⟨s, hs, hc⟩ := h
+    have hall := inventory_sites_allowed
+    rw [List.all_eq_true] at hall
+    have hsa := hall s hs
+    simp only [Bool.and_eq_true, beq_iff_eq, Bool.not_eq_true'] at hc
+    unfold siteAllowed at hsa
+    unfold siteReviewed at hc
+    rw [hc.2, Bool.or_false] at hsa
+    rw [← hc.1]; exact hsa
+
+/-- Soundness assumption on the inventory (validated dynamically under ThreadSanitizer on every
+run): a library operation writes a shared location only inside an inventory object that has an
+unreviewed write site. -/
+def ConformsInventory (op : Op) : Prop :=
+  ∀ o a, op.writes (.shared o a) = true → objMayWrite o = true
+
+/-- The explicit extra hypothesis of the partial theorem: the operation does not write the objects
+listed as known findings (those calls are serialised by the user, or the objects are repaired). -/
+def AvoidsFindings (op : Op) : Prop :=
+  ∀ o a, op.writes (.shared o a) = true → objFinding o = false
+
+/-- what the library guarantees by construction for a call on context `i`: outside the shared objects
+it writes only context `i`, and it reads only context `i` and shared objects -/
+def CtxLocal (i : Nat) (op : Op) : Prop :=
+  (∀ l, op.writes l = true → l.isCtx i = true ∨ l.isShared = true) ∧
+  (∀ l, op.reads l = true → l.visible i = true)
+
+/-- **C18 on the current code, partial form.**  For library operations that conform to the
+regenerated inventory and avoid the listed known findings, every interleaving gives every thread the
+state and the results of its own sequential run.  With `knownFindings = []` the hypothesis
+`AvoidsFindings` is vacuous and this is the full property. -/
+theorem code_interleaving_irrelevant_partial (tr : Trace)
+    (h : ∀ e ∈ tr, e.2.Respects ∧ CtxLocal e.1 e.2 ∧ ConformsInventory e.2 ∧ AvoidsFindings e.2)
+    (i : Nat) (m : Mem) :
+    AgreeOn i (exec tr m).1 (exec (own i tr) m).1 ∧
+    resultsOf i (exec tr m).2 = (exec (own i tr) m).2.map (·.2) := by
+  apply interleaving_irrelevant
+  intro e he
+  obtain ⟨hr, hl, hc, ha⟩ := h e he
+  refine ⟨hr, ?_, hl.2⟩
+  intro l hw
+  cases l with
+  | ctx c a => simpa [Loc.isShared] using hl.1 _ hw
+  | shared o a =>
+    have h1 := mayWrite_is_finding o (hc o a hw)
+    have h2 := ha o a hw
+    simp [h1] at h2
+
+/-- an operation confined to its context satisfies the three code-level hypotheses -/
+theorem confined_code_hyps {i : Nat} {op : Op} (h : op.Confined i) :
+    CtxLocal i op ∧ ConformsInventory op ∧ AvoidsFindings op := by
+  refine ⟨⟨fun l hl => Or.inl (h.1 l hl), h.2⟩, ?_, ?_⟩
+  · intro o a hw; have := h.1 _ hw; simp [Loc.isCtx] at this
+  · intro o a hw; have := h.1 _ hw; simp [Loc.isCtx] at this
+
+/-- non-vacuity of the code-level hypotheses: an operation that reads a shared inventory object and
+works on its own context satisfies all four -/
+def opC : Op := mkOp 1 [.ctx 0 0, .shared 0 0] [.ctx 0 1]
+
+example : opC.Respects ∧ CtxLocal 0 opC ∧ ConformsInventory opC ∧ AvoidsFindings opC ∧
+    opC.run (fun _ => 1) (.ctx 0 1) ≠ 1 :=
+  have hc : opC.Confined 0 := mkOp_confined 0 1 _ _ none (by decide)
+  ⟨mkOp_respects 1 _ _ none, (confined_code_hyps hc).1, (confined_code_hyps hc).2.1,
+   (confined_code_hyps hc).2.2, by decide⟩
+
+end MirVerif.C18
